@@ -1,3 +1,5 @@
 import GoRedisModel.Properties.C20
 open GoRedis
-#print axioms C20_placeholder
+#print axioms C20_balanced
+#print axioms C20_executor_balanced
+#print axioms C20_request_block
